@@ -29,3 +29,14 @@ claim("C01", "TLC model checking of the unit-cell algorithm against the orbit + 
       "operation, parent index, element/label, merged occupancy, total occupancy, Gram products of cart_pos, slab rows/cells/counts).",
       "Fractional coordinates are projected to the 1/N grid with residual <= 1e-6 (else rejected); sites are kept on the grid so no image is near the 0.01 merge "
       "tolerance; operation identity by packed code (C11). Cell shapes and site placements are sampled.")
+
+claim("C04", "TLC trace validation of real molecular crystals + model checking of the BFS unwrapping",
+      "MC_Molecules model-checks the breadth-first shift accumulation and re-centring of unit_cell_molecules on every consistent periodic bond "
+      "graph with up to 3 (quick) / 4 (thorough) nodes: every bond is whole after unwrapping, each component visited once, centre re-centred into [0,1). "
+      "For every one of the 530 settings real molecular crystals (1-3 mini-molecules of equal or different size on general grid positions, placed across "
+      "cell boundaries) are built; TLC first evaluates the domain guard (every contact of the infinite crystal is an intended bond or clearly non-bonded) "
+      "and then validates connectivity edges and cells, count Z' x |G|, partition of the unit-cell atoms, wholeness (each molecule is a lattice translate "
+      "of the exact image of its parent, hence isometric and bonded), provenance columns, centre of mass in the cell, coverage by the symmetry-unique "
+      "molecules and the image labels.",
+      "Bond thresholds come from the library's covalent radii with a +-0.08 A guard band; molecule coordinates are projected to the 1/48 grid "
+      "(residual > 1e-6 rejected); chemistry restricted to C/N/O/F/H trees of 2-5 atoms on general positions.")
